@@ -23,7 +23,7 @@ def gen_history(r, c, nops):
     pts = [[f2b(r.open_unit()) for _ in range(dim)] for _ in range(max(2, nops // 4))]
     for i in range(nops):
         k = r.below(10)
-        st = dict(stability=r.choice([None, None, f2b(1e-5)]), debug=r.chance(0.3), metadata=r.chance(0.5))
+        st = dict(stability=r.choice([None, None, f2b(1e-5), f2b(0.0), f2b(1e-16)]), debug=r.chance(0.3), metadata=r.chance(0.5))   # 0 and 1e-16: the test mostly rejects
         if k < 2:
             draws = [r.u64() for _ in range(dim)]
             ops.append(dict(kind="rng", draws=draws, edge_data=c["edge_data"], **st))
@@ -114,8 +114,8 @@ def run(rep, rng, tier, replay=None):
     if hits:
         rep.violation("proof-obligation", "the purity argument of the state-machine model assumes no unsafe/static/interior mutability in src/: " + "; ".join(hits[:5]))
     rep.cov["operations"] = nops
-    rep.cov["rule"] = ("%d samplers, each with a random history of 50-500 mixed calls (from_point at f64/Inst, from_rng with a replaying counting RNG; all 8 settings combinations with the "
-                       "stability test on/off) run on ONE shared sampler from 1/2/4/8/16 barrier-started threads; every output compared bit for bit with the same call on a freshly built "
+    rep.cov["rule"] = ("%d samplers, each with a random history of 50-500 mixed calls (from_point at f64/Inst, from_rng with a replaying counting RNG; all settings combinations, the "
+                       "stability test off / 1e-5 / tolerances 0 and 1e-16 at which it mostly rejects) run on ONE shared sampler from 1/2/4/8/16 barrier-started threads; every output compared bit for bit with the same call on a freshly built "
                        "sampler and with a second process; calls with equal point+stability must agree whatever the flags; from_rng must draw get_dimension() numbers and equal from_point "
                        "on them; serialisation before == after. non-trivial = not the first call of a single-threaded history" % ncase)
     rep.assumptions.append("real data races / OS scheduling are not exhibited by the model; the claim for them rests on &self + Sync typing (static assertion in the harness) and the static scan")
